@@ -413,7 +413,7 @@ def attacks(w, job, part):
 def cutoff_jobs(ctx, p):
     """used by checks/c16.py: the trigger is an interrupted rewrite (C16), the outcome watched is the one C02 cares about"""
     jobs = []
-    for kind in ctx.q(('AES16', 'RSApriv'), ('AES16', 'AES32', 'DES3', 'GEN64', 'RSApriv', 'ECpriv')):
+    for kind in ctx.q(('AES16',), ('AES16', 'AES32', 'DES3', 'GEN64', 'RSApriv', 'ECpriv')):
         for priv in (False, True):
             for st in [q[0] for q in STATES[1:]]: jobs.append(dict(paths=p, hdr=p['hdr'], scratch=ctx.scratch, what='cutoff', kind=kind, private=priv, state=st, name=f'cutoff-{kind}-{int(priv)}-{st}', rseed=ctx.seed * 19 + len(jobs)))
     return jobs
